@@ -651,3 +651,12 @@ pub fn many_ranges() -> ListFamily {
     items.push(P::Diff(Rc::new(P::Pow(Rc::new(P::Rng(1, 12)), 2)), Rc::new(P::UnionL(all12))));
     ListFamily { name: "many ranges/u3 (states with 9-12 explicit intervals)".into(), u, items, shallow: 0 }
 }
+
+/// thorough: binary operators between EVERY level-1 term and every unary level-2 term of the quick core, both orders
+/// (the quick level-3 slice uses 39 hand-picked small terms instead of all 405)
+pub fn level3_full() -> BinaryWith {
+    let q = core_quick();
+    let n1 = q.l1.len();
+    let base = LevelFamily { name: "unary level 2 of the quick core".into(), u: q.u.clone(), l1: q.l1.clone(), uops: q.uops.clone(), lim: 0, only_with: None };
+    BinaryWith { small: q.l1.clone(), base: Box::new(base), stride: 1, offset: n1 }
+}
